@@ -125,7 +125,7 @@ class EngineC13:
                 "max_fails": sw.choice([0, 1, 2]),
                 "epoch_iters": sw.randint(1, 5),
                 "max_iters": sw.randint(1, 6),
-                "f_est_tol": sw.choice([None, None, None, 0.5]),
+                "f_est_tol": sw.choice([None, None, None, 0.5, 5.0, 50.0, 500.0]),
                 "printitn": sw.choice([0, 1, 2]),
             }
             n_solves = sw.randint(2, 5)
